@@ -13,6 +13,178 @@ from ..model import AnalysisError, call_attr, kwarg, unparse, walk_shallow, norm
 from .c09 import branch_of
 
 
+class _Opaque:
+    def __repr__(self):
+        return "?"
+
+
+def _fmt_depth(v):
+    if not isinstance(v, tuple):
+        return "undetermined" if v is None else repr(v)
+    base, k = v
+    return (f"parent.depth + {k}" if k else "parent.depth") if base == "P" else str(k)
+
+
+def _is_depth_alias(fa, n, e) -> bool:
+    if not isinstance(e, ast.Name):
+        return False
+    defs = fa.rd.defs_of(n, e.id)
+    return bool(defs) and all(d.kind == "stmt" and isinstance(d.ast, ast.Assign) and unparse(d.ast.value) == "self.depth"
+                              for d in defs)
+
+
+def _depth_after_init(f, has_ctx: bool, route):
+    """(base, k) = the value stored in self.depth by the constructor for this input shape, base 'P' = the parent's depth;
+    None when it cannot be determined.  A tiny interpreter over the statements that can touch the depth: assignments (names,
+    self attributes, tuples), `+=`, if / else on the context and the route, conditional expressions; everything else is
+    opaque and irrelevant unless it flows into the depth (then the result is None)."""
+    OPQ = _Opaque()
+    env = {"context": ("CTX" if has_ctx else None), "route": route, "self": "SELF"}
+    attrs = {}
+
+    def truth(v):
+        if isinstance(v, _Opaque):
+            raise LookupError
+        if v == "CTX" or v == "SELF":
+            return True
+        if isinstance(v, tuple) and len(v) == 2 and v[0] in ("P", 0):
+            raise LookupError
+        return bool(v)
+
+    def ev(e):
+        if isinstance(e, ast.Constant):
+            return e.value
+        if isinstance(e, ast.Name):
+            return env.get(e.id, OPQ)
+        if isinstance(e, ast.Attribute):
+            t = unparse(e)
+            if t in attrs:
+                return attrs[t]
+            base = ev(e.value)
+            if base == "CTX" and e.attr == "depth":
+                return ("P", 0)
+            if base == "SELF" and e.attr == "context":
+                return env["context"]
+            return OPQ
+        if isinstance(e, ast.IfExp):
+            try:
+                return ev(e.body) if truth(ev(e.test)) else ev(e.orelse)
+            except LookupError:
+                return OPQ
+        if isinstance(e, ast.BinOp) and isinstance(e.op, (ast.Add, ast.Sub)):
+            l, r = ev(e.left), ev(e.right)
+            sign = 1 if isinstance(e.op, ast.Add) else -1
+            if isinstance(l, int) and not isinstance(l, bool):
+                l = (0, l)
+            if isinstance(r, int) and not isinstance(r, bool):
+                r = (0, r)
+            if isinstance(l, tuple) and isinstance(r, tuple) and len(l) == 2 and len(r) == 2:
+                if r[0] == 0:
+                    return (l[0], l[1] + sign * r[1])
+                if l[0] == 0 and sign == 1:
+                    return (r[0], l[1] + r[1])
+            return OPQ
+        if isinstance(e, ast.UnaryOp) and isinstance(e.op, ast.Not):
+            try:
+                return not truth(ev(e.operand))
+            except LookupError:
+                return OPQ
+        if isinstance(e, ast.BoolOp):
+            try:
+                vals = [ev(v) for v in e.values]
+                if isinstance(e.op, ast.And):
+                    for v in vals:
+                        if not truth(v):
+                            return v
+                    return vals[-1]
+                for v in vals:
+                    if truth(v):
+                        return v
+                return vals[-1]
+            except LookupError:
+                return OPQ
+        if isinstance(e, ast.Compare) and len(e.ops) == 1:
+            l, r = ev(e.left), ev(e.comparators[0])
+            if isinstance(l, _Opaque) or isinstance(r, _Opaque):
+                return OPQ
+            op = e.ops[0]
+            if isinstance(op, ast.Is):
+                return l is r
+            if isinstance(op, ast.IsNot):
+                return l is not r
+            if isinstance(op, ast.Eq):
+                return l == r
+            if isinstance(op, ast.NotEq):
+                return l != r
+            return OPQ
+        if isinstance(e, ast.Tuple):
+            return ["TUPLE"] + [ev(x) for x in e.elts]
+        return OPQ
+
+    def assign(t, v):
+        if isinstance(t, ast.Name):
+            env[t.id] = v
+        elif isinstance(t, ast.Attribute):
+            attrs[unparse(t)] = v
+        elif isinstance(t, (ast.Tuple, ast.List)):
+            if isinstance(v, list) and v and v[0] == "TUPLE" and len(v) - 1 == len(t.elts):
+                for x, y in zip(t.elts, v[1:]):
+                    assign(x, y)
+            else:
+                for x in t.elts:
+                    assign(x, OPQ)
+
+    class _Stop(Exception):
+        pass
+
+    def block(stmts):
+        for st in stmts:
+            if st.__class__.__name__ == "InlineBlock":
+                block(st.body)
+            elif isinstance(st, ast.Assign):
+                v = ev(st.value)
+                for t in st.targets:
+                    assign(t, v)
+            elif isinstance(st, ast.AnnAssign) and st.value is not None:
+                assign(st.target, ev(st.value))
+            elif isinstance(st, ast.AugAssign):
+                cur = ev(st.target)
+                assign(st.target, ev(ast.BinOp(left=st.target, op=st.op, right=st.value))
+                       if isinstance(st.op, (ast.Add, ast.Sub)) else OPQ)
+            elif isinstance(st, ast.If):
+                if "max_depth" in unparse(st.test):
+                    raise _Stop()
+                try:
+                    taken = truth(ev(st.test))
+                except LookupError:
+                    # a test the depth cannot depend on (options, hooks): both arms must leave the depth alone
+                    before = (dict(env), dict(attrs))
+                    block(st.body)
+                    a_ = attrs.get("self.depth")
+                    env.clear(); env.update(before[0]); attrs.clear(); attrs.update(before[1])
+                    block(st.orelse)
+                    if attrs.get("self.depth") != a_:
+                        attrs["self.depth"] = OPQ
+                    continue
+                block(st.body if taken else st.orelse)
+            elif isinstance(st, (ast.Return, ast.Raise)):
+                raise _Stop()
+            # expression statements, with, try ...: no effect on the depth unless they assign (then opaque)
+            elif isinstance(st, (ast.With, ast.Try, ast.For, ast.While)):
+                for x in ast.walk(st):
+                    if isinstance(x, (ast.Assign, ast.AugAssign)):
+                        for t in (x.targets if isinstance(x, ast.Assign) else [x.target]):
+                            assign(t, OPQ)
+    try:
+        block(f.node.body)
+    except _Stop:
+        pass
+    v = attrs.get("self.depth")
+    if isinstance(v, int) and not isinstance(v, bool):
+        v = (0, v)
+    return v if isinstance(v, tuple) and len(v) == 2 and v[0] in ("P", 0) else None
+
+
 def r18a(run):
     f = run.repo.func("utype.parser.options", "RuntimeContext.__init__")
     fa = analysis(f)
@@ -39,38 +211,22 @@ def r18a(run):
                 tests += 1
                 run.ob("R18a", f, f"`{unparse(a)}` is a None-exact route test", True)
     run.floor("R18a", "route tests in RuntimeContext.__init__", tests, 1)
-    # depth accounting: inherits the parent's depth; +1 exactly on the no-route branch; compared with `>`
-    inherit = any(n.kind == "stmt" and isinstance(n.ast, ast.Assign) and unparse(n.ast.targets[0]) == "self.depth"
-                  and "context.depth" in unparse(n.ast.value) for n in fa.cfg.nodes)
-    run.check("R18a", f, "the depth starts from the parent context's depth", inherit, construct="depth not inherited",
-              message="RuntimeContext.__init__ does not initialise self.depth from context.depth",
-              necessity="depth would restart at every nested data class: max_depth never triggers, cyclic input recurses")
-    incs = [n for n in fa.cfg.nodes if n.kind == "stmt" and isinstance(n.ast, ast.AugAssign)
-            and unparse(n.ast.target) == "self.depth"]
-    ok = len(incs) == 1 and isinstance(incs[0].ast.op, ast.Add) and isinstance(incs[0].ast.value, ast.Constant) \
-        and incs[0].ast.value.value == 1
-    if ok:
-        facts = {(unparse(a), p) for a, p in fa.facts.atoms_at(incs[0])}
-        ok = ("route is not None", False) in facts or ("route is None", True) in facts or ("route", False) in facts
-    run.check("R18a", f, "depth increases by one exactly when no route is given", ok, construct="depth increment",
-              message="self.depth is not incremented by exactly 1 on (only) the no-route branch",
-              necessity="element / field contexts must not add depth; data-class contexts must add exactly one")
-    writes = [n for n in fa.cfg.nodes if n.kind == "stmt" and isinstance(n.ast, (ast.Assign, ast.AugAssign, ast.AnnAssign))
-              and any(unparse(t) == "self.depth" for t in (n.ast.targets if isinstance(n.ast, ast.Assign) else [n.ast.target]))]
-    for n in writes:
-        if n in incs:
-            continue
-        v = n.ast.value
-        inherit_form = isinstance(n.ast, ast.Assign) and isinstance(v, ast.IfExp) and unparse(v.body) == "context.depth" \
-            and unparse(v.test) == "context" and isinstance(v.orelse, ast.Constant) and v.orelse.value == 0 \
-            and not fa.facts.branch_facts(n)
-        run.check("R18a", f, f"`{norm_stmt(n.ast)[:50]}` is the inherited starting depth", inherit_form,
-                  construct=f"depth overwritten: {norm_stmt(n.ast)[:50]}",
-                  message=f"`{norm_stmt(n.ast)}` sets the depth to something else than the parent's depth "
-                          f"(under {[unparse(b.test) + '=' + str(b.polarity) for b in fa.facts.branch_facts(n)]})",
-                  necessity="a counter that restarts (e.g. when the nested class differs from the parent's) never reaches "
-                            "the limit for mutually recursive classes: every depth is accepted and cyclic inputs recurse "
-                            "until the interpreter's limit", node=n.ast)
+    # depth accounting, decided by evaluating the constructor symbolically over its finite input shapes: with P the
+    # parent's depth, the depth stored for (context present / absent) x (route None / 0 / '' / a name) must be
+    # (P or 0) + (1 if route is None else 0) - however the arithmetic is written (in place, through locals, tuples ...)
+    for has_ctx in (True, False):
+        for route in (None, 0, "", "x"):
+            got = _depth_after_init(f, has_ctx, route)
+            want = (("P" if has_ctx else 0), 1 if route is None else 0)
+            label = f"context {'given' if has_ctx else 'absent'}, route={route!r}"
+            run.check("R18a", f, f"stored depth for {label} is {_fmt_depth(want)}", got == want,
+                      construct=f"depth accounting: {label}",
+                      message=f"RuntimeContext.__init__ stores depth {_fmt_depth(got)} for {label}; a layer without a route "
+                              f"is one level below its parent, a layer with a route (any index, any key - 0 and '' too) is at "
+                              f"its parent's level: expected {_fmt_depth(want)}",
+                      necessity="depth restarting, or elements / falsy keys charged a level: max_depth=d no longer accepts "
+                                "exactly the values of data-class nesting depth <= d (cyclic input is not rejected, or the "
+                                "first list element is)")
     # the limit violation is raised, never handed to handle_error (which may return in collect mode)
     he = [c for n_, c in fa.all_calls() if call_attr(c) == "handle_error"]
     run.check("R18a", f, "the depth error is raised unconditionally (not collected)", not he,
@@ -84,10 +240,14 @@ def r18a(run):
             for a, p in decompose(n.ast, True):
                 if isinstance(a, ast.Compare) and len(a.ops) == 1:
                     l, op, r = unparse(a.left), a.ops[0], unparse(a.comparators[0])
-                    if l == "self.depth" and r.endswith("max_depth") and isinstance(op, ast.Gt):
+                    dl = l == "self.depth" or _is_depth_alias(fa, n, a.left)
+                    dr = r == "self.depth" or _is_depth_alias(fa, n, a.comparators[0])
+                    if dl and r.endswith("max_depth") and isinstance(op, ast.Gt):
                         cmp_ok = True
-                    if r == "self.depth" and l.endswith("max_depth") and isinstance(op, ast.Lt):
+                    if dr and l.endswith("max_depth") and isinstance(op, ast.Lt):
                         cmp_ok = True
+            if not any(isinstance(a, ast.Compare) and "depth" in unparse(a) for a, p in decompose(n.ast, True)):
+                continue        # a guard on the limit alone (`if not limit: return`), not the comparison
             tb = [s for s, k in n.succ if s.kind == "branch" and s.polarity]
             raises = tb and any(m.kind == "stmt" and isinstance(m.ast, ast.Raise) and "DepthExceedError" in unparse(m.ast)
                                 for m in fa.cfg.reach_from_succ(tb[0], kinds=(N,)) | {tb[0]})
@@ -126,7 +286,15 @@ def r18b(run):
               construct="enter does not chain", message="RuntimeContext.enter does not pass context=self / route=route",
               necessity="depth and routes would restart in every child context")
     oc = [c for c in ctor if kwarg(c, "options") is not None]
-    ok = bool(oc) and all("self.options" in unparse(kwarg(c, "options")) for c in oc)
+
+    def opt_text(c):
+        v = kwarg(c, "options")
+        if isinstance(v, ast.Name):
+            # through a local: the texts of its definitions
+            return " ".join(unparse(x.value) for x in walk_shallow(e.node) if isinstance(x, ast.Assign)
+                            and any(isinstance(t, ast.Name) and t.id == v.id for t in x.targets))
+        return unparse(v)
+    ok = bool(oc) and all("self.options" in opt_text(c) for c in oc)
     run.check("R18b", e, "enter() derives the child's options from the parent's", ok, construct="enter options",
               message="RuntimeContext.enter does not build the child's options from self.options",
               necessity="max_depth (and every other option) would be lost below the first level")
